@@ -399,7 +399,7 @@ func (ip *Interp) Store(st *State, p *Ptr, t types.Type, v Val) {
 		if ip.TraceDyn {
 			for di, sl := range p.Path {
 				if sl.Dyn != nil {
-					ip.event(Event{Kind: "dyn-store", Args: []Val{sl.Dyn, &Ptr{Obj: p.Obj, Path: p.Path[:di]}, v}})
+					ip.event(Event{Kind: "dyn-store", Args: []Val{sl.Dyn, &Ptr{Obj: p.Obj, Path: p.Path[:di]}, v}, GuardL: ip.GuardList(st), Guards: ip.Guards(st)})
 				}
 			}
 			return
@@ -415,6 +415,17 @@ func (ip *Interp) Store(st *State, p *Ptr, t types.Type, v Val) {
 		ip.locs[k] = locInfo{p.Obj, p.Path, t}
 	}
 	st.Heap.set(k, v)
+	for _, h := range ip.curLoops {
+		w := ip.loopWritten[h]
+		if w == nil {
+			w = map[string]bool{}
+			ip.loopWritten[h] = w
+		}
+		if !w[k] {
+			w[k] = true
+			ip.loopChanged = true
+		}
+	}
 	if ip.TraceStores {
 		ip.Stores = append(ip.Stores, StoreEvent{Key: k, Obj: p.Obj, Path: p.Path, V: v, Fn: ip.curFn(), Pos: ip.curPos, GuardL: ip.GuardList(st)})
 	}
